@@ -121,6 +121,8 @@ type CacheCase struct {
 	Normalize     bool          `json:"normalize"`
 	NilCache      bool          `json:"nilCache"`
 	Actions       []CacheAction `json:"actions"`
+	// MutateArgs: resolvers write into the argument maps they are handed
+	MutateArgs bool `json:"mutateArgs,omitempty"`
 }
 
 func errPathsOf(res *graphql.Result) string {
@@ -146,7 +148,52 @@ func sameResponse(got, want *graphql.Result) string {
 	if gm, wm := errMessagesOf(got), errMessagesOf(want); gm != wm {
 		return fmt.Sprintf("error messages differ:\n    served:       %s\n    from scratch: %s", gm, wm)
 	}
+	if gl, wl := errLocationsOf(got), errLocationsOf(want); gl != wl && !sameResponseSkipLocations {
+		return fmt.Sprintf("error locations differ:\n    served:       %s\n    from scratch: %s", gl, wl)
+	}
 	return ""
+}
+
+// sameResponseSkipLocations is set while a normalising cache is compared and the known finding
+// KF-C06-normalized-locations is active (locations then belong to the first text of that shape).
+var sameResponseSkipLocations bool
+
+func errLocationsOf(res *graphql.Result) string {
+	var ls []string
+	for _, e := range res.Errors {
+		ls = append(ls, fmt.Sprintf("%s@%v", e.Message, e.Locations))
+	}
+	sort.Strings(ls)
+	return strings.Join(ls, " | ")
+}
+
+// reproNormalizedLocations: two texts of one shape through a normalising cache; the second
+// request's field error must be located in the second text.
+func reproNormalizedLocations() bool {
+	b, err := kitchen()
+	if err != nil {
+		return false
+	}
+	pc := graphql.NewPlanCache(graphql.PlanCacheOptions{Normalize: true})
+	ctx := func() context.Context {
+		return build.WithSession(context.Background(), &build.Session{W: &ref.World{S: kitchenModel(), Salt: 1, Outcomes: map[string]ref.Outcome{"nn": {Kind: "err"}}}})
+	}
+	var last *graphql.Result
+	for _, text := range []string{`{ req(r: 1) nn }`, `{ req(r: 100000) nn }`} {
+		pr := pc.Get(&b.Schema, text, "")
+		if pr.Plan == nil {
+			return false
+		}
+		last = graphql.ExecutePlan(pr.Plan, graphql.ExecuteParams{Schema: b.Schema, Args: pr.SynthArgs, Context: ctx()})
+	}
+	want := graphql.Do(graphql.Params{Schema: b.Schema, RequestString: `{ req(r: 100000) nn }`, Context: ctx()})
+	return errLocationsOf(last) != errLocationsOf(want)
+}
+
+func init() {
+	what := "a plan served by a normalising plan cache keeps the AST of the first request of that shape, so field errors of later requests (other literal lengths, other whitespace) are located in the first request's text"
+	registerKnown(&knownFinding{ID: "KF-C06-normalized-locations", Prop: "C06", What: what, Repro: reproNormalizedLocations})
+	registerKnown(&knownFinding{ID: "KF-C18-normalized-locations", Prop: "C18", What: what, Repro: reproNormalizedLocations})
 }
 
 func errMessagesOf(res *graphql.Result) string {
@@ -196,6 +243,8 @@ func (l *lruModel) store(key string, schema int) {
 }
 
 func c06Oracle(c *CacheCase) (msg string, interesting bool) {
+	sameResponseSkipLocations = c.Normalize && known("KF-C06-normalized-locations")
+	defer func() { sameResponseSkipLocations = false }()
 	m := kitchenModel()
 	w := &ref.World{S: m, Salt: 11, MaxList: 2}
 	var schemas [2]*build.Built
@@ -219,7 +268,9 @@ func c06Oracle(c *CacheCase) (msg string, interesting bool) {
 		maxBytes = 64 * 1024
 	}
 	lru := &lruModel{max: maxEntries, owner: map[string]int{}}
-	ctx := func() context.Context { return build.WithSession(context.Background(), &build.Session{W: w}) }
+	ctx := func() context.Context {
+		return build.WithSession(context.Background(), &build.Session{W: w, Mutate: c.MutateArgs})
+	}
 	scratch := func(q poolQuery, s int) *graphql.Result {
 		return graphql.Do(graphql.Params{Schema: schemas[s].Schema, RequestString: q.Text, OperationName: q.Op, VariableValues: q.Vars, Context: ctx()})
 	}
@@ -357,7 +408,7 @@ func TestC06(t *testing.T) {
 		return
 	}
 	rapid.Check(t, func(rt *rapid.T) {
-		c := &CacheCase{}
+		c := &CacheCase{MutateArgs: gen.Chance(rt, 40, "mutateArgs")}
 		c.MaxEntries = []int{1, 2, 3, 1024}[gen.Uniform(rt, 4, "maxEntries")]
 		c.MaxQueryBytes = []int{0, 120}[gen.Uniform(rt, 2, "maxBytes")]
 		c.Normalize = gen.Chance(rt, 50, "normalize")
@@ -489,6 +540,7 @@ func perturbLiterals(d *model.Doc, t *rapid.T) (*model.Doc, int) {
 }
 
 type CacheGenCase struct {
+	MutateArgs bool       `json:"mutateArgs,omitempty"` // resolvers write into the argument maps they are handed
 	Base       ExecCase   `json:"base"`
 	Neighbour  *model.Doc `json:"neighbour"`
 	Normalize  bool       `json:"normalize"`
@@ -496,6 +548,8 @@ type CacheGenCase struct {
 }
 
 func c06GenOracle(c *CacheGenCase) string {
+	sameResponseSkipLocations = c.Normalize && known("KF-C06-normalized-locations")
+	defer func() { sameResponseSkipLocations = false }()
 	ec := &c.Base
 	ec.fix()
 	b, err := build.New(ec.Schema, ec.World, build.Options{})
@@ -504,7 +558,9 @@ func c06GenOracle(c *CacheGenCase) string {
 	}
 	pc := graphql.NewPlanCache(graphql.PlanCacheOptions{Normalize: c.Normalize, MaxEntries: c.MaxEntries})
 	texts := []string{model.Print(ec.Doc, nil).Text, model.Print(c.Neighbour, nil).Text}
-	ctx := func() context.Context { return build.WithSession(context.Background(), &build.Session{W: ec.World}) }
+	ctx := func() context.Context {
+		return build.WithSession(context.Background(), &build.Session{W: ec.World, Mutate: c.MutateArgs})
+	}
 	// valuations: the case's own variables and its alternatives, cycled through the lookups
 	valuations := []map[string]interface{}{ec.goVars()}
 	for _, av := range ec.AltVars {
@@ -556,7 +612,7 @@ func TestC06_Gen(t *testing.T) {
 		ec, _ := genExecCase(rt, gen.SchemaOpts{Mutation: true}, gen.DocOpts{Budget: 25}, gen.WorldOpts{NoThunks: true})
 		ec.Layout = nil
 		nb, n := perturbLiterals(ec.Doc, rt)
-		c := &CacheGenCase{Base: *ec, Neighbour: nb, Normalize: gen.Chance(rt, 70, "normalize"), MaxEntries: []int{1, 2, 1024}[gen.Uniform(rt, 3, "maxEntries")]}
+		c := &CacheGenCase{MutateArgs: gen.Chance(rt, 40, "mutateArgs"), Base: *ec, Neighbour: nb, Normalize: gen.Chance(rt, 70, "normalize"), MaxEntries: []int{1, 2, 1024}[gen.Uniform(rt, 3, "maxEntries")]}
 		msg := c06GenOracle(c)
 		stats.R.Class(fmt.Sprintf("gen_normalize_%v", c.Normalize))
 		if n > 0 {
